@@ -564,6 +564,18 @@ func (sc *SubCache[EntityT, ExcerptT, CacheT]) MergeAll(remote string) <-chan en
 				// might as well keep them in memory
 				sc.cached[result.Id] = cached
 				sc.mu.Unlock()
+
+				// keep the search index in sync, as entityUpdated does for local changes
+				index, err := sc.repo.GetIndex(sc.namespace)
+				if err != nil {
+					out <- entity.NewMergeError(err, result.Id)
+					return
+				}
+				err = index.IndexOne(result.Id.String(), sc.makeIndexData(cached))
+				if err != nil {
+					out <- entity.NewMergeError(err, result.Id)
+					return
+				}
 			}
 		}
 
